@@ -25,6 +25,7 @@ import XotModel.Lemmas.FspecPairRemove
 import XotModel.Lemmas.FspecPairAppend4
 import XotModel.Lemmas.FspecPairAfter3
 import XotModel.Lemmas.FspecPairBefore4
+import XotModel.Lemmas.FcreationSpec
 
 namespace XotModel.Props
 open XotModel XotModel.Spec
@@ -727,5 +728,179 @@ theorem C05_pair_statements_false : ¬ C05_pair_appendStatement ∧ ¬ C05_pair_
     have := h selfMergeWitness 4 2 ((Forest.inv_iff _).1 (by decide)) (by decide)
     revert this
     decide
+
+/-! ### The convenience calls: a node creation followed by a move (`Model/Fcreation.lean`)
+
+  `new_document_with_element(n)` = create a document node, then the specification's move of `n`
+  to its last (only) place — in particular the place `n` LEAVES is consolidated like after any
+  other move; `append_text(p, s)` (`append_element`, `append_comment`,
+  `append_processing_instruction`) = create the node, then move it to the last place under `p`,
+  where a text node is merged into a trailing text node (the earlier node survives).  Corollaries
+  of the `append` theorems: creating a node keeps `Forest.Inv` and `Forest.Normal`. -/
+
+theorem C05_new_document_with_element {f : Forest} {n : Nat} (inv : f.Inv) (norm : f.Normal)
+    (hok : (f.newDocumentWithElement n).2.1 = .ok) :
+    (f.newDocumentWithElement n).1 = specMove Keep.earlier (.lastChildOf f.next) n f.newDocument.1 ∧
+    (f.newDocumentWithElement n).2.2 = f.next ∧ f.isElement n = true := by
+  unfold Forest.newDocumentWithElement at hok ⊢
+  cases he : f.isElement n with
+  | false => rw [he] at hok; simp at hok
+  | true =>
+    rw [he] at hok
+    simp only [Bool.not_true, Bool.false_eq_true, if_false] at hok ⊢
+    exact ⟨C05_append_exact (Fcreation.newNode_inv inv _) (Fcreation.newNode_normal norm _) hok, rfl, trivial⟩
+
+/-- … without `Forest.Normal`, against the PAIR reading (the corner `selfMerge` cannot arise:
+    nothing has the fresh document node as its parent). -/
+theorem C05_pair_new_document_with_element {f : Forest} {n : Nat} (inv : f.Inv)
+    (hok : (f.newDocumentWithElement n).2.1 = .ok) :
+    (f.newDocumentWithElement n).1 = specMoveP (.lastChildOf f.next) n f.newDocument.1 := by
+  unfold Forest.newDocumentWithElement at hok ⊢
+  cases he : f.isElement n with
+  | false => rw [he] at hok; simp at hok
+  | true =>
+    rw [he] at hok
+    simp only [Bool.not_true, Bool.false_eq_true, if_false] at hok ⊢
+    exact C05_pair_append_partial (Fcreation.newNode_inv inv _) hok (Fcreation.selfMerge_under_new inv _ n)
+
+/-- `append_text` / `append_element` / `append_comment` / `append_processing_instruction`, by the
+    value `v` of the node they create (handle `f.next`). -/
+theorem C05_append_new {f : Forest} {p : Nat} {v : Value} (inv : f.Inv) (norm : f.Normal)
+    (hok : (f.appendNew p v).2 = .ok) :
+    (f.appendNew p v).1 = specMove Keep.earlier (.lastChildOf p) f.next (f.newNode v).1 :=
+  C05_append_exact (Fcreation.newNode_inv inv v) (Fcreation.newNode_normal norm v) hok
+
+theorem C05_pair_append_new {f : Forest} {p : Nat} {v : Value} (inv : f.Inv) (hok : (f.appendNew p v).2 = .ok) :
+    (f.appendNew p v).1 = specMoveP (.lastChildOf p) f.next (f.newNode v).1 :=
+  C05_pair_append_partial (Fcreation.newNode_inv inv v) hok (Fcreation.selfMerge_new inv v p)
+
+theorem C05_append_text {f : Forest} {p : Nat} {s : Str} (inv : f.Inv) (norm : f.Normal)
+    (hok : (f.appendText p s).2 = .ok) :
+    (f.appendText p s).1 = specMove Keep.earlier (.lastChildOf p) f.next (f.newText s).1 :=
+  C05_append_new inv norm hok
+
+theorem C05_append_element {f : Forest} {p name : Nat} (inv : f.Inv) (norm : f.Normal)
+    (hok : (f.appendElement p name).2 = .ok) :
+    (f.appendElement p name).1 = specMove Keep.earlier (.lastChildOf p) f.next (f.newElement name).1 :=
+  C05_append_new inv norm hok
+
+theorem C05_append_comment {f : Forest} {p : Nat} {s : Str} (inv : f.Inv) (norm : f.Normal)
+    (hok : (f.appendComment p s).2 = .ok) :
+    (f.appendComment p s).1 = specMove Keep.earlier (.lastChildOf p) f.next (f.newComment s).1 :=
+  C05_append_new inv norm hok
+
+theorem C05_append_processing_instruction {f : Forest} {p t : Nat} {d : Option Str} (inv : f.Inv) (norm : f.Normal)
+    (hok : (f.appendPi p t d).2 = .ok) :
+    (f.appendPi p t d).1 = specMove Keep.earlier (.lastChildOf p) f.next (f.newPi t d).1 :=
+  C05_append_new inv norm hok
+
+/-- `append_namespace(e, prefix, ns)` on an element is `namespaces_mut(e).insert(prefix, ns)`, i.e.
+    `specMapInsert`: a new prefix is carried by exactly the node the call creates (handle
+    `f.next`, placed last among the namespace nodes), which is returned; for an existing prefix
+    the existing node is updated and returned, and the created node stays behind parentless
+    (it was never handed out). -/
+theorem C05_append_namespace {f : Forest} {e : Nat} (pfx ns : Nat) (inv : f.Inv) (he : f.isElement e = true) :
+    (f.appendNamespace e pfx ns).2.1 = .ok ∧
+    (f.appendNamespace e pfx ns).1 =
+      (match f.mapGetNode .namespaces e pfx with
+       | some _ => ((specMapInsert .namespaces e (.namespace pfx ns) f).newNode (.namespace pfx ns)).1
+       | none => specMapInsert .namespaces e (.namespace pfx ns) f) ∧
+    (f.appendNamespace e pfx ns).2.2 =
+      (match f.mapGetNode .namespaces e pfx with | some x => x.handle | none => f.next) := by
+  have h := Fcreation.appendNamespace_mapInsert inv he pfx ns
+  rw [C05_map_insert inv he rfl] at h
+  exact h
+
+/-- The node-map wrappers `set_attribute`, `set_namespace`, `remove_attribute`, `remove_namespace`
+    ARE the `insert` / `remove` of the mutable views (definitionally), hence `C05_map_insert` /
+    `C05_map_remove`. -/
+theorem C05_set_attribute {f : Forest} {e name : Nat} {v : Str} (inv : f.Inv) (he : f.isElement e = true) :
+    f.setAttribute e name v = (specMapInsert .attributes e (.attribute name v) f, .ok) :=
+  C05_map_insert inv he rfl
+theorem C05_set_namespace {f : Forest} {e pfx ns : Nat} (inv : f.Inv) (he : f.isElement e = true) :
+    f.setNamespace e pfx ns = (specMapInsert .namespaces e (.namespace pfx ns) f, .ok) :=
+  C05_map_insert inv he rfl
+theorem C05_remove_attribute {f : Forest} {e name : Nat} (inv : f.Inv) (he : f.isElement e = true) :
+    f.removeAttribute e name = (specMapRemove .attributes e name f, .ok) := C05_map_remove inv he
+theorem C05_remove_namespace {f : Forest} {e pfx : Nat} (inv : f.Inv) (he : f.isElement e = true) :
+    f.removeNamespace e pfx = (specMapRemove .namespaces e pfx f, .ok) := C05_map_remove inv he
+
+/-- The setters behind `element_mut`, `attribute_node_mut`, `namespace_node_mut`,
+    `processing_instruction_mut().set_target`, `text_mut().get_mut()`: exactly one value changes,
+    and it keeps its kind (name of the attribute, prefix of the declaration, data of the PI). -/
+theorem C05_creation_setters {f : Forest} {n : Nat} :
+    (∀ name, (f.elementSetName n name).2 = .ok → (f.elementSetName n name).1 = specSetValue n (.element name) f) ∧
+    (∀ s, (f.attributeSetValue n s).2 = .ok →
+      ∃ k old, f.value? n = some (.attribute k old) ∧ (f.attributeSetValue n s).1 = specSetValue n (.attribute k s) f) ∧
+    (∀ ns, (f.namespaceSetNamespace n ns).2 = .ok →
+      ∃ p old, f.value? n = some (.namespace p old) ∧ (f.namespaceSetNamespace n ns).1 = specSetValue n (.namespace p ns) f) ∧
+    (∀ t, (f.piSetTarget n t).2 = .ok →
+      ∃ old d, f.value? n = some (.pi old d) ∧ (f.piSetTarget n t).1 = specSetValue n (.pi t d) f) ∧
+    (∀ s, (f.textPush n s).2 = .ok →
+      ∃ old, f.value? n = some (.text old) ∧ (f.textPush n s).1 = specSetValue n (.text (old ++ s)) f) := by
+  refine ⟨fun name hok => ?_, fun s hok => ?_, fun ns hok => ?_, fun t hok => ?_, fun s hok => ?_⟩
+  · unfold Forest.elementSetName at hok ⊢
+    split
+    · exact setValue_eq_spec f n _
+    · rename_i h; rw [if_neg h] at hok; cases hok
+  · unfold Forest.attributeSetValue at hok ⊢
+    split
+    · rename_i k old hv; exact ⟨k, old, hv, setValue_eq_spec f n _⟩
+    · rename_i h
+      split at hok
+      · rename_i k old hv; exact absurd hv (h k old)
+      · cases hok
+  · unfold Forest.namespaceSetNamespace at hok ⊢
+    split
+    · rename_i p old hv; exact ⟨p, old, hv, setValue_eq_spec f n _⟩
+    · rename_i h
+      split at hok
+      · rename_i p old hv; exact absurd hv (h p old)
+      · cases hok
+  · unfold Forest.piSetTarget at hok ⊢
+    split
+    · rename_i old d hv; exact ⟨old, d, hv, setValue_eq_spec f n _⟩
+    · rename_i h
+      split at hok
+      · rename_i old d hv; exact absurd hv (h old d)
+      · cases hok
+  · unfold Forest.textPush at hok ⊢
+    split
+    · rename_i old hv; exact ⟨old, hv, setValue_eq_spec f n _⟩
+    · rename_i h
+      split at hok
+      · rename_i old hv; exact absurd hv (h old)
+      · cases hok
+
+/-- `value_mut` as in its documentation: dispatches to the setter of the node's kind. -/
+theorem C05_value_mut_set (f : Forest) (n : Nat) (s : Str) :
+    f.valueMutSet n s =
+      (match f.value? n with
+       | some (.text _) => f.setText n s
+       | some (.comment _) => f.setComment n s
+       | some (.attribute _ _) => f.attributeSetValue n s
+       | some (.pi _ _) => f.setPiData n (some s)
+       | _ => (f, .err .invalidOperation)) := rfl
+
+/-- Non-vacuity, and the regression this section is there for: `<doc>a<e>x</e>b</doc>`;
+    `new_document_with_element(e)` moves `e` under a new document node (handle 5) AND merges the
+    two text nodes it separated (`a` keeps its identity and holds `ab`, `b` is removed); a
+    non-element is refused with nothing created; `append_text` after a trailing text node is
+    merged into it. -/
+example :
+    let f : Forest := { roots := [.node 0 (.element 2) [.node 1 (.text ['a']) [], .node 2 (.element 3) [.node 3 (.text ['x']) []],
+                                    .node 4 (.text ['b']) []]], next := 5 }
+    f.inv = true ∧ (f.newDocumentWithElement 2).2 = (.ok, 5) ∧
+      (f.newDocumentWithElement 2).1.roots =
+        [.node 0 (.element 2) [.node 1 (.text ['a', 'b']) []], .node 5 .document [.node 2 (.element 3) [.node 3 (.text ['x']) []]]] ∧
+      (f.newDocumentWithElement 2).1.isRemoved 4 = true ∧
+      (f.newDocumentWithElement 2).1 = specMove Keep.earlier (.lastChildOf 5) 2 f.newDocument.1 ∧
+      (f.newDocumentWithElement 2).1 = specMoveP (.lastChildOf 5) 2 f.newDocument.1 ∧
+      f.newDocumentWithElement 1 = (f, .err .invalidOperation, 0) ∧
+      (f.appendText 0 ['c']).2 = .ok ∧ (f.appendText 0 ['c']).1.value? 4 = some (.text ['b', 'c']) ∧
+      (f.appendText 0 ['c']).1.isLive 5 = false ∧
+      (f.appendText 1 ['c']).2 = .err .invalidOperation ∧ (f.appendText 1 ['c']).1 = (f.newText ['c']).1 ∧
+      (f.appendNamespace 0 2 3).2 = (.ok, 5) ∧ (f.appendNamespace 0 2 3).1 = specMapInsert .namespaces 0 (.namespace 2 3) f := by
+  decide
 
 end XotModel.Props
